@@ -75,7 +75,8 @@ def handle (j : Json) : Except String Json := do
       let e ← argNat j "entity"
       let rb ← argNat j "rbits"
       let wb ← argNat j "wbits"
-      match h.refine c e rb wb with
+      let compat ← argBool j "compat"
+      match h.refine c e rb wb compat with
       | .ok c' => pure (Json.mkObj [("ok", .num (JsonNumber.fromNat c'))])
       | .error .classChange => pure (Json.mkObj [("error", "TransactionError")])
       | .error .notImplemented => pure (Json.mkObj [("error", "NotImplementedError")])
